@@ -97,9 +97,13 @@ def mutants(v, repl, keys):
         ps = v["pairs"]
         for i in range(len(ps)):
             out.append(VDict(ps[:i] + ps[i + 1:]))
-        for x in keys:
-            if not any(_key_eq(p["key"], x) for p in ps):
-                out.append(VDict(ps + [KV(x, VNone)]))
+        free = [x for x in keys if not any(_key_eq(p["key"], x) for p in ps)]
+        for x in free:
+            out.append(VDict(ps + [KV(x, VNone)]))
+        for x in free:
+            for y in free:
+                if x != y:
+                    out.append(VDict(ps + [KV(x, VNone), KV(y, VNone)]))
         for i in range(len(ps)):
             for m in mutants(ps[i]["val"], repl, keys):
                 out.append(VDict(ps[:i] + [KV(ps[i]["key"], m)] + ps[i + 1:]))
